@@ -1,1 +1,73 @@
-From DL Require Import Dec.Post.
+(* C03 — CDecay yields the exact charge conjugate of the referenced decay table.
+   Model: Dec/Post.v (add_cc / conj_table: the Lark visitor with its write-back into the shared
+   ChargeConj dictionary, daughters line by line then the mother).  The database conjugation is the
+   regenerated table of C04 (cc).  Statement-list level; front end as C01 (partial). *)
+From Coq Require Import String List Bool ZArith QArith Arith.
+From DL Require Import Lib.Val Lib.PyDict Decay.Conj Decay.ConjProofs Decay.GenTables Dec.Tables Dec.Syntax Dec.Post
+  Dec.ConjTableProofs.
+Import ListNotations.
+Close Scope Q_scope.
+Open Scope string_scope.
+
+Definition names_of_pairs (d0 : pdict string) : list string := (map fst d0 ++ map snd d0)%list.
+
+(* well-formed ChargeConj statements (the module docstring's assumption): every name occurs in at most one
+   pair, names are aliases unknown to the particle database and are not "ChargeConj(...)" markers *)
+Definition wf_pairs (d0 : pdict string) : Prop :=
+  NoDup (names_of_pairs d0) /\
+  forall n, In n (names_of_pairs d0) -> ~ In n (evt_names gen_tables) /\ is_wrap n = false.
+
+Lemma db_dich : forall n, cc n = wrap n \/ (In (cc n) (evt_names gen_tables) /\ cc (cc n) = n).
+Proof.
+  intros n. destruct (cc_wrap_or_name gen_tables gen_tables_ok n) as [H|[_ [H1 H2]]]; [left | right]; auto.
+Qed.
+
+(* The CDecay pass: existing tables untouched (in particular every source table); for every CDecay X
+   without a Decay table of its own (Decay takes precedence) whose conjugate — ChargeConj statement read
+   in either direction, otherwise the database — has a table, one table is appended: the same lines in the
+   same order with identical branching fractions, PHOTOS flags, models and parameters, every daughter and
+   the mother replaced by its conjugate under the same rule; a CDecay without source adds nothing. *)
+Theorem C03_cdecay_tables : forall d0 sc cdecays T, wf_pairs d0 ->
+  Forall (fun t => nonwrap (table_labels t) /\ sc (fst t) <> Some true) (cc_sources cc d0 cdecays T) ->
+  add_cc cc sc cdecays d0 T =
+  (T ++ map (fun t => (cj cc d0 (fst t), map (cline cc d0) (snd t))) (cc_sources cc d0 cdecays T))%list.
+Proof.
+  intros d0 sc cdecays T [Hnd Hunk] Hs.
+  apply (add_cc_spec cc (evt_names gen_tables) d0 db_dich Hnd Hunk sc cdecays T Hs).
+Qed.
+Print Assumptions C03_cdecay_tables.
+
+(* conjugating twice returns the name (unless marked unknown) — so X gets the table "for X" *)
+Theorem C03_conjugate_of_source_is_X : forall d0 p, wf_pairs d0 ->
+  is_wrap (cj cc d0 p) = false -> cj cc d0 (cj cc d0 p) = p.
+Proof.
+  intros d0 p [Hnd Hunk]. apply (cj_involutive cc (evt_names gen_tables) d0 db_dich Hnd Hunk).
+Qed.
+Print Assumptions C03_conjugate_of_source_is_X.
+
+Theorem C03_decay_takes_precedence : forall cdecays T X, In X (map fst T) -> ~ In X (cc_names cdecays T).
+Proof. exact decay_takes_precedence. Qed.
+Print Assumptions C03_decay_takes_precedence.
+
+Theorem C03_switch_off_adds_nothing : forall ccdb sc f T0,
+  parse_post ccdb sc false f = inl T0 ->
+  exists T, T0 = add_copies (copies_of f) T.
+Proof.
+  intros ccdb sc f T0 H. unfold parse_post in H.
+  destruct (mapE _ (dedupe [] (raw_decays f))) as [T|]; [|discriminate]. inversion H. exists T. reflexivity.
+Qed.
+Print Assumptions C03_switch_off_adds_nothing.
+
+(* non-vacuity: aliases MyD / MyDbar with ChargeConj in the "reverse" orientation *)
+Example C03_example :
+  let d0 := [("MyDbar", "MyD")] in
+  wf_pairs d0 /\
+  vtables (add_cc cc (fun _ => None) ["MyDbar"] d0
+     [("MyD", [{| l_bf := 1#2; l_fs := ["K-"; "pi+"; "MyX"; "pi0"]; l_photos := true; l_model := "PHSP"; l_params := None |}])])
+  = vtables [("MyD", [{| l_bf := 1#2; l_fs := ["K-"; "pi+"; "MyX"; "pi0"]; l_photos := true; l_model := "PHSP"; l_params := None |}]);
+             ("MyDbar", [{| l_bf := 1#2; l_fs := ["K+"; "pi-"; "ChargeConj(MyX)"; "pi0"]; l_photos := true; l_model := "PHSP"; l_params := None |}])].
+Proof.
+  split; [|vm_compute; reflexivity]. split.
+  - repeat constructor; simpl; intuition discriminate.
+  - intros n [<-|[<-|[]]]; split; try reflexivity; vm_compute; intros H; repeat (destruct H as [H|H]; [discriminate|]); exact H.
+Qed.
